@@ -784,7 +784,7 @@ pub fn net_oracles_learn(ctx: &mut Ctx, spec: &NetSpec, net: &Network, job: &Lea
     };
     // a feedback block with ONE repetition and no internal skips is its layer sequence: training it is training the plain
     // network with those layers in its place (same groups, same steps, same carried optimizer state)
-    if is(ctx, &["C04", "C10", "C11"]) && job.phases <= 1 && job.script.is_empty()
+    if is(ctx, &["C04", "C10", "C11", "C03"]) && job.phases <= 1 && job.script.is_empty()
         && spec.builds.iter().any(|b| matches!(b, Build::Feedback { .. }))
         && spec.builds.iter().all(|b| match b { Build::Feedback { loops, inskips, outskips, .. } => *loops == 1 && !*inskips && !*outskips, Build::Layer(_) => true, _ => false }) {
         let mut plain = spec.clone();
